@@ -297,6 +297,28 @@ Proof.
 Qed.
 End Exact.
 
+(** * The events of a part, with a strict partial order as comparator (the library's, Tolerance > 0): the stored poles stay
+    separated, every added term goes through at most ONE merge, and none is lost other than by the negligibility test *)
+Section Events.
+Variable K : Type.
+Variable NO : numops K.
+Theorem gf_part_events_short fixed lenient (T : tols K) inp o :
+  (forall a, gf_compare K NO (t_compare K T) a a = false) ->
+  (forall a b c, gf_compare K NO (t_compare K T) a b = true -> gf_compare K NO (t_compare K T) b c = true ->
+                 gf_compare K NO (t_compare K T) a c = true) ->
+  gf_part_compute K NO fixed lenient T inp = WDone o ->
+  sorted_sep K K (gf_compare K NO (t_compare K T)) (o_terms K o) /\
+  Forall (fun e => match e with EvChain steps fin => fin <> FinFuel /\ length steps <= 1 end) (o_events K o).
+Proof.
+  intros Hi Ht. unfold gf_part_compute.
+  destruct (part_walk fixed lenient (p_C K inp) (p_CX K inp)) as [l| | |]; cbn [wbind]; try discriminate.
+  destruct (all_some (map (gf_match K NO T inp) l)) as [raw|]; [|discriminate].
+  intros E. injection E as <-. cbn [o_terms o_events]. unfold gf_add_terms. split.
+  - apply add_terms_sorted; [exact Hi|exact Ht|exact I].
+  - apply add_terms_events_short; [exact Hi|exact Ht|exact I].
+Qed.
+End Events.
+
 (** * Stripe selection: GreensFunction::prepare (and Susceptibility::prepare) *)
 Fixpoint ksorted (l : list (nat * nat)) : Prop :=      (* strictly increasing first components: a bimap view *)
   match l with
